@@ -382,6 +382,10 @@ pub fn run(ctx: &Ctx) -> Report {
       ("name-decides-default-output-blocked", Box::new(|sb: &Sandbox| sb.write("in/bar.torrent", b"there")), vec!["--input", "in/content", "--name", "bar"], None, 1, vec![]),
       ("output-is-a-link-to-a-file-no-force", Box::new(|sb: &Sandbox| { sb.write("elsewhere/real.torrent", b"precious"); link(sb, "../elsewhere/real.torrent", "out/t.torrent"); }), vec!["--input", "in/content", "--output", "out/t.torrent"], None, 1, vec![]),
       ("stdin-to-existing-output", Box::new(|sb: &Sandbox| sb.write("out/t.torrent", b"there")), vec!["--input", "-", "--name", "n", "--output", "out/t.torrent"], Some(b"bytes".to_vec()), 1, vec![]),
+      ("output-dot-slash-dash-is-a-file-not-standard-output", Box::new(|_sb: &Sandbox| {}), vec!["--input", "in/content", "--output", "./-"], None, 0, vec!["-"]),
+      ("output-dot-slash-dash-occupied", Box::new(|sb: &Sandbox| sb.write("-", b"there")), vec!["--input", "in/content", "--output", "./-"], None, 1, vec![]),
+      ("output-dash-reached-through-dotdot", Box::new(|sb: &Sandbox| sb.mkdir("sub")), vec!["--input", "in/content", "--output", "sub/../-"], None, 0, vec!["-"]),
+      ("output-is-a-directory-called-dash", Box::new(|sb: &Sandbox| sb.mkdir("-")), vec!["--input", "in/content", "--output", "./-"], None, 0, vec!["-/content.torrent"]),
       ("dry-run-with-open-writes-nothing", Box::new(|sb: &Sandbox| launcher(sb)), vec!["--input", "in/content", "--output", "out/t.torrent", "--dry-run", "--open"], None, 0, vec![]),
       ("dry-run-with-open-and-force-replaces-nothing", Box::new(|sb: &Sandbox| { launcher(sb); sb.write("out/t.torrent", b"old old old"); }), vec!["--input", "in/content", "--output", "out/t.torrent", "--dry-run", "--open", "--force"], None, 0, vec![]),
       ("open-after-a-real-run-writes-one-file", Box::new(|sb: &Sandbox| launcher(sb)), vec!["--input", "in/content", "--output", "out/t.torrent", "--open"], None, 0, vec!["out/t.torrent"]),
@@ -402,6 +406,9 @@ pub fn run(ctx: &Ctx) -> Report {
         let mut full = vec!["torrent", "create"];
         full.extend(args.iter().copied());
         let mut cmd = Cmd::new(&ctx.imdl, &full).cwd(&sb.root);
+        if full.iter().any(|a| a.ends_with("/-")) {
+          cmd = cmd.literal();
+        }
         if let Some(b) = stdin {
           cmd = cmd.stdin(b);
         }
